@@ -10,6 +10,7 @@ package harness
 import (
 	"errors"
 	"fmt"
+	"github.com/quic-go/quic-go"
 	"net/http"
 	"sort"
 	"testing"
@@ -24,7 +25,7 @@ type waCase struct {
 	Hook    string // none | accept | reject
 	HookMsg string
 	Shape   string // valid | notConnect | wrongProto | noDraftHeader | draftHeaderTwice
-	First   string // open | message | garbage | noStream | binaryOpen | empty
+	First   string // open | message | garbage | noStream | binaryOpen | empty | streamEndsAtOnce | streamResetAtOnce | cutInHeader | cutInPayload | cutInPayloadBinary (the stream ends or is reset before / inside the first message)
 }
 
 func (c waCase) String() string {
@@ -129,6 +130,32 @@ func runWA(c waCase) (fail string, stats map[string]bool) {
 			tc.SendFrameRaw(wtEncode(false, []byte("\x00\xff{")))
 		case "empty":
 			tc.SendFrameRaw(wtEncode(false, nil))
+		case "streamEndsAtOnce":
+			// the client opens its stream and finishes it without a byte
+			tc.Bidi.in.CloseWrite()
+			stats["stream-fault-before-the-first-message"] = true
+		case "streamResetAtOnce":
+			rst := &quic.StreamError{StreamID: tc.Bidi.id, ErrorCode: 0x10, Remote: true}
+			tc.Bidi.in.Fail(rst, rst)
+			stats["stream-fault-before-the-first-message"] = true
+		case "cutInHeader":
+			// the first frame announces a 16-bit length and ends inside its header
+			tc.SendFrameRaw(wtEncodeForm(false, []byte("0"), 1)[:2])
+			Settle()
+			tc.Bidi.in.CloseWrite()
+			stats["stream-fault-inside-the-first-message"] = true
+		case "cutInPayload":
+			// the first frame announces 20 bytes, 3 arrive, then the stream is reset
+			tc.SendFrameRaw(wtEncode(false, []byte("0{\"sid\":\"0123456789\"}"))[:4])
+			Settle()
+			rst := &quic.StreamError{StreamID: tc.Bidi.id, ErrorCode: 0x10, Remote: true}
+			tc.Bidi.in.Fail(rst, rst)
+			stats["stream-fault-inside-the-first-message"] = true
+		case "cutInPayloadBinary":
+			tc.SendFrameRaw(wtEncode(true, []byte("0{\"sid\":\"0123456789\"}"))[:4])
+			Settle()
+			tc.Bidi.in.CloseWrite()
+			stats["stream-fault-inside-the-first-message"] = true
 		}
 		Settle()
 		tc.Pump()
@@ -188,7 +215,7 @@ func TestC05WebTransportAdmission(t *testing.T) {
 			Hook:    rapid.SampledFrom([]string{"none", "accept", "reject", "reject"}).Draw(rt, "hook"),
 			HookMsg: rapid.SampledFrom([]string{"nope", "", "quote\"back\\slash", "ünï <b>", "line\nbreak", "\x01\x7f", "{\"code\":0}"}).Draw(rt, "hookMsg"),
 			Shape:   rapid.SampledFrom([]string{"valid", "valid", "valid", "notConnect", "wrongProto", "noDraftHeader", "draftHeaderTwice"}).Draw(rt, "shape"),
-			First:   rapid.SampledFrom([]string{"open", "open", "message", "garbage", "noStream", "binaryOpen", "empty"}).Draw(rt, "first"),
+			First:   rapid.SampledFrom([]string{"open", "open", "message", "garbage", "noStream", "binaryOpen", "empty", "streamEndsAtOnce", "streamResetAtOnce", "cutInHeader", "cutInPayload", "cutInPayloadBinary"}).Draw(rt, "first"),
 		}
 		journal("C05 webtransport admission %v", c)
 		var fail string
@@ -208,5 +235,5 @@ func TestC05WebTransportAdmission(t *testing.T) {
 			rt.Fatalf("%v: %s", c, clipStr(res.Leak, 1500))
 		}
 	})
-	col.RequireClasses(t, "refused-by-the-hook", "upgrade-cannot-be-performed", "admitted", "no-session-for-this-first-message", "stream-never-opened")
+	col.RequireClasses(t, "refused-by-the-hook", "upgrade-cannot-be-performed", "admitted", "no-session-for-this-first-message", "stream-never-opened", "stream-fault-before-the-first-message", "stream-fault-inside-the-first-message")
 }
